@@ -375,6 +375,50 @@ EDGE_SCRIPTS = [                      # empty setup(), empty loop(), both, nothi
 ]
 
 
+def boundary_scripts():
+    """smallest scripts of the classes the section on library headers / function selection is about (they come first, so that a
+    failure of one of these classes is reported on a script of a few lines):
+    every non-empty combination of the three library classes in every rotation of the declaration order (one of them with the
+    Servo hoisted from the loop head), and every polymorphic-helper shape of c06_gen with both argument classes at top level"""
+    import itertools
+    imp = ("from Reduino import target\ntarget(\"COM3\")\nfrom Reduino.Actuators import Servo\nfrom Reduino.Displays import LCD\n"
+           "from Reduino.Communication import SerialMonitor\nfrom Reduino.Utils import sleep\n")
+    decl = {"S": 'arm = Servo(9)', "P": 'panel = LCD(rs=12, en=11, d4=5, d5=4, d6=3, d7=2)', "I": 'backpack = LCD(i2c_addr=0x27, cols=20, rows=4)'}
+    use = {"S": 'arm.write(90)', "P": 'panel.write(0, 0, "p")', "I": 'backpack.write(0, 1, "i")'}
+    out = []
+    for r in (1, 2, 3):
+        for combo in itertools.combinations("SPI", r):
+            for rot in range(r):
+                order = combo[rot:] + combo[:rot]
+                pre = [decl[k] for k in order]
+                out.append((imp + "\n".join(pre + [use[k] for k in order if k != "S"]) + "\nwhile True:\n" +
+                            "".join(f"    {use[k]}\n" for k in order if k == "S") + "    sleep(500)\n", {"boundary: library classes " + "".join(order): 1}))
+            if "S" in combo:
+                pre = [decl[k] for k in combo if k != "S"]
+                out.append((imp + "\n".join(pre + [use[k] for k in combo if k != "S"]) + "\nwhile True:\n    " + decl["S"] + "\n    " + use["S"] + "\n    sleep(500)\n",
+                            {"boundary: library classes, Servo hoisted " + "".join(combo): 1}))
+    out.append((imp + decl["P"] + "\nlcd2 = LCD(rs=7, en=8, d4=22, d5=23, d6=24, d7=25, rw=6)\n" + decl["I"] + "\nbp2 = LCD(i2c_addr=0x3F)\narm = Servo(9)\narm2 = Servo(10)\nwhile True:\n    sleep(500)\n",
+                {"boundary: two objects of each library class": 1}))
+    head = imp + "mon = SerialMonitor(9600)\n"
+    tail = "while True:\n    sleep(100)\n"
+    helpers = {
+        "rebind int,float": "def half(x):\n    x = x / 2.0\n    return x\na = half(3)\nb = half(2.5)\n",
+        "rebind float,int": "def half(x):\n    x = x / 2.0\n    return x\na = half(2.5)\nb = half(3)\n",
+        "rebind int,float,int": "def half(x):\n    x = x * 0.5\n    return x\na = half(3)\nb = half(2.5)\nc = half(4)\n",
+        "rebind in loop": "def half(x):\n    x = x / 2.0\n    return x\na = half(3)\n" + "while True:\n    b = half(2.5)\n    mon.write(b)\n    sleep(100)\n",
+        "rebind2": "def mix(a, b):\n    a = a / 4.0\n    return a + b\nu = mix(1, 2)\nv = mix(1.5, 2)\n",
+        "overload int,String": "def twice(x):\n    return x + x\na = twice(3)\nb = twice(\"ab\")\n",
+        "overload String,float": "def twice(x):\n    return x + x\nb = twice(\"ab\")\na = twice(2.5)\n",
+        "via": "def half(x):\n    x = x / 2.0\n    return x\ndef as_int(y: int):\n    return half(y)\ndef as_float(z: float):\n    return half(z)\na = as_int(3)\nb = as_float(2.5)\n",
+        "same signature twice": "def inc(n):\n    n = n + 1\n    return n * 2\na = inc(3)\nb = inc(4)\n",
+        "never called": "def unused(x):\n    return x + 1\ndef unused2(s: str, t: float):\n    return s\n",
+        "called from a function only": "def inner(y):\n    return y * 2\ndef outer(z):\n    return inner(z) + 1\na = outer(4)\n",
+    }
+    for k, body in helpers.items():
+        out.append((head + body + (tail if "while True" not in body else ""), {"boundary: helper " + k: 1}))
+    return out
+
+
 def gen_scripts(rng, n):
     out = []
     kinds = G.ALL_KINDS
@@ -597,7 +641,7 @@ def part_scripts(ctx, dist, samples):
     rng = ctx.rng
     thorough = ctx.tier == "thorough"
     n = 2000 if thorough else 160
-    scripts = [(x, {"edge script": 1}) for x in EDGE_SCRIPTS] + gen_scripts(rng, n)
+    scripts = [(x, {"edge script": 1}) for x in EDGE_SCRIPTS] + boundary_scripts() + gen_scripts(rng, n)
     feats = Counter()
     inside = []
     for src, f in scripts:
